@@ -16,7 +16,7 @@ from harness import absval, core, repo
 
 EMB = ['bare', 'left', 'right', 'neg', 'pct', 'sum', 'round', 'mul']
 ENVS = [(a, b, c) for a in (False, True) for b in (False, True) for c in (False, True)]
-CONSTS = {(23, 0): 1, (23, 1): 2, (22, 0): '=MATCH(99,X1:X2,0)'}          # W1 = #N/A (MATCH miss over X1:X2); Y1 stays blank
+CONSTS = {(23, 0): 1, (23, 1): 2, (22, 0): '=MATCH(99,X1:X2,0)', (20, 0): 'some text'}          # W1 = #N/A (MATCH miss over X1:X2); Y1 stays blank
 
 
 def text(a):
@@ -29,6 +29,10 @@ def text(a):
         return '1/Y1'
     if t == 'na':
         return 'W1'
+    if t == 'blank':
+        return 'V1'
+    if t == 'text':
+        return 'U1'
     if t == 'if3':
         return f"IF({text(a['c'])},{text(a['a'])},{text(a['b'])})"
     if t == 'if2':
@@ -58,7 +62,9 @@ def obs_of(kind, p):
     if isinstance(p, bool):
         return {'k': 'bool', 'b': p}
     if absval.is_empty_cell(p):
-        return {'k': 'other', 't': 'blank'}
+        return {'k': 'blank'}
+    if isinstance(p, str) and p == 'some text':
+        return {'k': 'text'}
     if isinstance(p, (int, float)):
         h = p * 100
         if abs(h - round(h)) < 1e-9 and abs(h) < 2 ** 30:
@@ -79,6 +85,8 @@ def same(r, o):
         return o['k'] == 'bool' and o['b'] == r['b']
     if k == 'err':
         return o['k'] == 'err'
+    if k in ('blank', 'text'):
+        return o['k'] == k
     return False
 
 
@@ -87,6 +95,8 @@ def show(v):
         return str(v['n'] / 100 if v['n'] % 100 else v['n'] // 100)
     if v['k'] == 'bool':
         return 'TRUE' if v['b'] else 'FALSE'
+    if v['k'] in ('blank', 'text'):
+        return v['k']
     if v['k'] == 'err':
         return v.get('v') or v.get('e') and ('#' + v['e']) or ('raises ' + v.get('exc', '?'))
     return str(v)
@@ -166,7 +176,7 @@ def public_path(run, recs):
     rng = random.Random(run.seed + 13)
     sample = rng.sample(recs, min(len(recs), 40 if run.quick else 300))
     env = (True, False, True)
-    cells = {(23, 0): 1, (23, 1): 2, (22, 0): '=MATCH(99,X1:X2,0)', (2, 0): True, (2, 1): 0, (3, 0): 3, (4, 0): 2}
+    cells = {(23, 0): 1, (23, 1): 2, (22, 0): '=MATCH(99,X1:X2,0)', (20, 0): 'some text', (2, 0): True, (2, 1): 0, (3, 0): 3, (4, 0): 2}
     for j, rec in enumerate(sample):
         cells[(6, j)] = '=' + text(rec['ast'])
     res = repo.public_path_eval(run.scratch, [('S', cells)], [(0, 6, j) for j in range(len(sample))], tag='c13pp')
@@ -183,7 +193,7 @@ def public_path(run, recs):
 # ---------------------------------------------------------------- direction B
 def random_ast(rng, d):
     def leaf():
-        return rng.choice([{'t': 'num', 'n': rng.choice([7, 9, 3, 12])}, {'t': 'num', 'n': 7}, {'t': 'fail'}, {'t': 'na'}])
+        return rng.choice([{'t': 'num', 'n': rng.choice([7, 9, 3, 12])}, {'t': 'num', 'n': 7}, {'t': 'fail'}, {'t': 'na'}, {'t': 'blank'}, {'t': 'text'}])
 
     def cond():
         return {'t': 'cond', 'i': rng.randint(1, 3)}
@@ -200,7 +210,7 @@ def random_ast(rng, d):
             return {'t': 'ifs', 'ps': [[cond(), node(dd - 1)] for _ in range(rng.randint(1, 3))]}
         return {'t': 'iferror', 'x': node(dd - 1), 'f': node(dd - 1)}
     a = node(d)
-    while a['t'] in ('num', 'fail', 'na'):
+    while a['t'] in ('num', 'fail', 'na', 'blank', 'text'):
         a = node(d)
     return a
 
@@ -234,7 +244,7 @@ def validate(run, events, tag='Trace_C13'):
         evs = []
         for e in part:
             o = e['obs']
-            oo = {'k': o['k'], 'n': o.get('n', 0), 'b': o.get('b', False)} if o['k'] in ('num', 'bool') else {'k': 'err' if o['k'] == 'err' else 'other', 'n': 0, 'b': False}
+            oo = {'k': o['k'], 'n': o.get('n', 0), 'b': o.get('b', False)} if o['k'] in ('num', 'bool') else {'k': o['k'] if o['k'] in ('err', 'blank', 'text') else 'other', 'n': 0, 'b': False}
             evs.append({'ast': e['ast'], 'env': e['env'], 'emb': e['emb'], 'obs': oo})
         json.dump({'events': evs}, open(path, 'w'))
         r = run.tlc('Trace_C13', ['SPECIFICATION Spec'], workers=1, timeout=1800, env={'TRACE_FILE': path}, tag=f'{tag}_{pi}')
